@@ -252,6 +252,8 @@ PROPS["C07"]["tasks"] = PROPS["C07"]["tasks"] + [t for t in SKELETON + RUNNER_EL
 PROPS["C08"]["tasks"] = PROPS["C08"]["tasks"] + [t for t in ("OrderBook.add", "OrderBook.cancel", "OrderBook._remove", "OrderBook.change_order_volume", "OrderBook._check_expired_orders") if t not in PROPS["C08"]["tasks"]]
 # round 8: a matching round is only started on a running market; the halt rule is the one built-in writer of that switch besides the session start (C03 depends on its gate invariant)
 PROPS["C03"]["tasks"] = PROPS["C03"]["tasks"] + ["TradingHaltRule.hooked_before_step_for_market", "TradingHaltRule.hooked_after_execution"]
+# round 9: a notification goes to the agent whose id the order carries, so "the right party" rests on the owner check of the collection phase (C11)
+PROPS["C11"]["tasks"] = PROPS["C11"]["tasks"] + ["SequentialRunner._collect_orders_from_normal_agents[Order]", "SequentialRunner._collect_orders_from_normal_agents[Cancel]"]
 from .census import CALLERS as _CALLERS
 for _g, (_ps, _r, _t) in _CALLERS.items():
     for _p in _ps:
